@@ -34,7 +34,8 @@ Types == { TInt, TFlt, TStr, TBool, TNull, TRange, TAnyObj,
            TList(TInt), TList(TStr), TList(TFlt), TList(TList(TInt)), TList(TOpt(TInt)), TList(TObj(<<"a">>, <<TInt>>)),
            TOpt(TInt), TOpt(TList(TInt)), TOpt(TStr),
            TObj(<<"a">>, <<TInt>>), TObj(<<"a", "b">>, <<TInt, TStr>>), TObj(<<"a">>, <<TList(TInt)>>),
-           TObj(<<"a", "b">>, <<TOpt(TInt), TList(TStr)>>) }
+           TObj(<<"a", "b">>, <<TOpt(TInt), TList(TStr)>>),
+           TObj(<<"n", "t">>, <<TStr, TOpt(TList(TInt))>>), TList(TOpt(TObj(<<"a">>, <<TList(TInt)>>))) }
 
 JsonTypes == { T \in Types : T.t # "range" }    \* (ranges have no JSON form)
 
@@ -115,7 +116,9 @@ ValReplaceAt(v, p, new) ==
             LET j == CHOOSE q \in 1..Len(v.ks) : v.ks[q] = h[2] IN [v EXCEPT !.vs[j] = ValReplaceAt(@, Tail(p), new)]
          ELSE [v EXCEPT !.v = ValReplaceAt(@, Tail(p), new)]
 
-NoOpt(q) == \A h \in 1..Len(q) : q[h][1] # "o"
+\* The language cannot overwrite the value directly inside an option (`o.unwrap() = x` is no place), but it can
+\* write to an element / field of, or push onto, a container it reached through unwrap().
+NotOptInner(q) == q[Len(q)][1] # "o"
 
 \* a different value of the same type as x (for overwriting a scalar position)
 Other(x) ==
@@ -125,9 +128,8 @@ Other(x) ==
 \* the mutations applicable to value v: overwrite a scalar element / field, push onto a list
 Mutations(v) ==
     { [op |-> "set", p |-> p] : p \in { q \in PathsOf(v) : q # <<>> /\ SubAt(v, q).k \in {"int", "flt", "str", "bool"}
-                                                            /\ NoOpt(q) } }
-    \cup { [op |-> "push", p |-> p] : p \in { q \in PathsOf(v) : SubAt(v, q).k = "list" /\ SubAt(v, q).es # <<>>
-                                                                /\ NoOpt(q) } }
+                                                            /\ NotOptInner(q) } }
+    \cup { [op |-> "push", p |-> p] : p \in { q \in PathsOf(v) : SubAt(v, q).k = "list" /\ SubAt(v, q).es # <<>> } }
 
 ApplyMut(v, mu) ==
     IF mu.op = "set" THEN ValReplaceAt(v, mu.p, Other(SubAt(v, mu.p)))
